@@ -3,6 +3,11 @@
 import json, subprocess
 
 BUILT = {
+ "C02": dict(level="exploration",
+   technique="grammar-based generation from harness-owned trees with an independent printer + exhaustive operator-position x construct pairs and statement adjacencies + native fuzzing; oracle = round trip on a canonical structural dump and equality with the intended tree",
+   text="Program texts are printed from trees the harness owns (own precedence table, random layout, redundant parentheses, comments in statement positions, all literal forms), so the intended tree is known: the parser must build exactly it, and format(parse(t)) in normal and compact mode must be accepted and parse to the same canonical dump (comments dropped for compact); Function.Inspect output must parse back to the function literal. The quadratic family every-operand-position x every-construct (62x56) and every ordered pair of 35 statement shapes (top level and in a block) are enumerated completely; rapid generates nested programs; thorough adds coverage-guided fuzzing of examples/tests. Two classes are excluded by construction and reported as known findings (pinned by the repository's own tests).",
+   note="Trusted: gen.Print and its precedence table (written from documentation and parser tests), the dump of package dump. Texts with comments in operand position are skipped and counted.",
+   ref="DESIGN.md section 3, C02"),
  "C08": dict(level="exploration",
    technique="exhaustive enumeration of short token sequences + rapid token sequences / truncations / byte mutations of shipped examples + native fuzzing; oracle = no panic, complete tree (canonical dump has no nil child) and printable in 3 modes when accepted, error echo within input",
    text="All token sequences up to length 3 (quick) / 4 (thorough) over a 67-exemplar token alphabet (every keyword, builtin, operator, delimiter, literal kind, comments, newline, an illegal byte, unterminated string and comment), glued and spaced, are parsed in both lexer modes; every nil-returning parse path must be justified by an error or a continuation request, which is decided by a structural dump of accepted trees; printing in normal/compact/all-parens mode must not panic. rapid adds 40-token sequences, every truncation and random byte mutations (NUL, 0xff, quotes, brackets) of examples/ and tests/; thorough adds coverage-guided fuzzing.",
